@@ -445,6 +445,8 @@ def classify_inline(src, pos):
                         pass
             else:
                 tags.add('slot:' + l.parent.type)
+                if l.parent.type == 'trailer' and l.parent.children[0] == '.':
+                    tags.add('attribute-reference')
         l = l.get_next_leaf()
     if rhs_type:
         tags.add('rhs:' + rhs_type)
@@ -485,6 +487,7 @@ def stream_programs(ctx, reqs, pending):
             if kind == 'inline':
                 case['tags'] = sorted(classify_inline(src, s))
                 case['semicolon_statement'] = 'semicolon-statement' in case['tags']
+                case['attribute_reference'] = 'attribute-reference' in case['tags']
             else:
                 case['tags'] = []
                 case['multiline_statement'] = multiline_statement(src, s)
